@@ -58,10 +58,10 @@ func Start(prop, tier, level string) *Run {
 	r := &Run{Prop: prop, Tier: tier, Level: level, start: time.Now(), viol: map[string][]Violation{},
 		violCount: map[string]int{}, counters: map[string]int64{}, sampleCap: 6, known: map[string]string{}, Exhaustive: true}
 	r.loadKnown()
-	// internal deadline: VERIF_DEADLINE_S, default 480 s (quick) / 3600 s (thorough); 0 = none
+	// internal deadline: VERIF_DEADLINE_S, default 480 s (quick) / 1800 s (thorough); 0 = none
 	d := 480
 	if tier == "thorough" {
-		d = 3600
+		d = 1800
 	}
 	if v := os.Getenv("VERIF_DEADLINE_S"); v != "" {
 		d, _ = strconv.Atoi(v)
